@@ -88,7 +88,7 @@ def h_step(p0: int, p1: int, w0: int, w1: int, w2: int, w3: int, w4: int, w5: in
            lasttype: int, last_ebad: bool, tablemode: int, rowchar: int, lss: bool, first_lo: int = 0, first_hi: int = 0x110000):
     """ONE call of scan() from an arbitrary state satisfying the representation invariant I (tokens tile [0, start) except
     U+EBAD, flags consistent).  The history is summarised by the characters in front of `start`, the last token(s), the flags
-    and counters.  pre = 0: start of the text; 1: one token covers the two characters before start (or a pending section
+    and counters.  pre = 0: start of the text; 3: like 1 with a just-dropped U+EBAD directly before start (last_ebad set); 1: one token covers the two characters before start (or a pending section
     marker + one token if lss); 2: like 1 but a dropped U+EBAD sits between the two tokens.  Post-condition: progress and I again."""
     S = scanner()
     E = S["ENUM"]
@@ -114,14 +114,23 @@ def h_step(p0: int, p1: int, w0: int, w1: int, w2: int, w3: int, w4: int, w5: in
         assume(lasttype != E["t_end"] and lasttype != E["t_ebad"])
         if pre == 1:
             prefix = [p0, p1]
+            assume(not last_ebad)  # the flag is set only while the character before start is a dropped U+EBAD (pre = 3)
             if lss:
                 toks, lsi = [tok(E["t_section"], 0, 1), tok(lasttype, 1, 1)], 0
             else:
                 toks, lsi = [tok(lasttype, 0, 2)], -1
-        else:
+        elif pre == 2:
             prefix = [p0, EBAD, p1]
             assume(not last_ebad)  # the token after the dropped character has been found already
             toks, lsi = [tok(E["t_section"] if lss else E["t_text"], 0, 1), tok(lasttype, 2, 1)], (0 if lss else -1)
+        else:
+            # a U+EBAD directly before start has just been dropped: the last token ends in front of it and the flag is set
+            prefix = [p0, p1, EBAD]
+            assume(last_ebad)
+            if lss:
+                toks, lsi = [tok(E["t_section"], 0, 1), tok(lasttype, 1, 1)], 0
+            else:
+                toks, lsi = [tok(lasttype, 0, 2)], -1
     buf = prefix + win + [0] * 32
     s = S["Scanner"](buf, 0, len(buf))
     s.cursor = len(prefix)
@@ -243,9 +252,9 @@ def build(tier: str) -> CheckSpec:
     sp = {"p0": int, "p1": int, "w0": int, "w1": int, "w2": int, "w3": int, "w4": int, "w5": int, "lasttype": int, "last_ebad": bool,
           "tablemode": int, "rowchar": int, "lss": bool}
     nwin = 3 if q else 5
-    for pre in (0, 1, 2):
+    for pre in (0, 1, 2, 3):
         for lo, hi in (FINE if nwin >= 3 else RANGES):
-            cubes.append(Cube(f"step, window {nwin}, {['at text start', 'mid text', 'mid text after a dropped U+EBAD'][pre]}, first in [{lo:#x},{hi:#x})", h_step, sp,
+            cubes.append(Cube(f"step, window {nwin}, {['at text start', 'mid text', 'mid text after a dropped U+EBAD', 'right after a dropped U+EBAD'][pre]}, first in [{lo:#x},{hi:#x})", h_step, sp,
                               {"nwin": nwin, "pre": pre, "first_lo": lo, "first_hi": hi}, timeout=tmo * 2, per_path_timeout=30, group="step"))
     cubes.append(Cube("twin: two tokens of different types", twin_tokens, {"c0": int, "c1": int}, {}, timeout=60, role="twin"))
     return CheckSpec(
